@@ -1353,8 +1353,9 @@ pub fn late_reply_sessions(bin: &str, seed: u64, sessions: u64) -> E2eResult {
                     // the first waitsendpay while the part settles, so each learns its preimage from
                     // the completed-sendpays list, H2 right after H1 (nothing of H1's list may be
                     // served to H2)
-                    s.stuck.push((h1.clone(), "pay-drop-wait-drop"));
-                    s.stuck.push((h2.clone(), "pay-drop-wait-drop"));
+                    let mode = if i % 2 == 0 { "pay-drop-complete" } else { "pay-drop-wait-drop" };
+                    s.stuck.push((h1.clone(), mode));
+                    s.stuck.push((h2.clone(), mode));
                     s.send_doc(&hook("x1", tramp_request(&inv1, 1, 1_005_000, 1_005_000, height + 1100, height)), 0);
                     let w1 = s.wait_or_ping(|s| s.reply("x1").is_some(), Duration::from_secs(15));
                     let mut breq = tramp_request(&inv2, 1, 1_005_000, 1_005_000, height + 1100, height);
